@@ -4,6 +4,10 @@ import _aspenkv as A
 
 
 def run(ctx):
+    return A.guarded(ctx, _run)
+
+
+def _run(ctx):
     states, trans, design = A.run_design(ctx, "C06")
     # (a) ingress determinism on one real node
     total, gs, gt, samples, stats, fams = A.run_ingress(ctx, "C06")
